@@ -14,6 +14,9 @@
 (*  kind "lower"  loaded grammar with and without --all_lower              *)
 (*  kind "lines"  a guess stream that must equal a reference stream        *)
 (*                (flags taken from the save file on --load)               *)
+(*  kind "resumed" a session started with flags and cut after T.cut lines  *)
+(*                (T.first), resumed with a plain --load (T.got); T.ref =   *)
+(*                the uninterrupted stream under the flags                  *)
 (***************************************************************************)
 EXTENDS Integers, Sequences, FiniteSets, Bags, TLC, TLCExt, Json, IOUtils
 
@@ -50,13 +53,14 @@ PM == IF \E k \in 1..Len(T.defout) : HasM(T.defout[k])
 (* p = q / (1 - pm)   <=>   p[1] * q[2] * (pm[2] - pm[1]) = p[2] * q[1] * pm[2] *)
 Rescaled(p, q, pm) == p[1] * q[2] * (pm[2] - pm[1]) = p[2] * q[1] * pm[2]
 
-NClauses == CASE T.kind = "load" -> 4 [] T.kind = "insert" -> 3 [] T.kind = "structs" -> 1 [] T.kind = "stream" -> 5 [] T.kind = "lower" -> 3 [] OTHER -> 1
+NClauses == CASE T.kind = "load" -> 4 [] T.kind = "insert" -> 3 [] T.kind = "structs" -> 1 [] T.kind = "stream" -> 5 [] T.kind = "lower" -> 3 [] T.kind = "resumed" -> 3 [] OTHER -> 1
 ClauseName(k) ==
   CASE T.kind = "load"   -> <<"C14_load_succeeds", "C14_same_structures_in_order", "C14_rescaled_by_1_minus_PM", "C14_numeric_residue">>[k]
     [] T.kind = "insert" -> <<"C03_ruleset_loads", "C03_every_alpha_variable_gets_its_case_mask", "C03_probabilities_as_written">>[k]
     [] T.kind = "structs" -> <<"every_alpha_variable_gets_its_own_case_mask">>[k]
     [] T.kind = "stream" -> <<"C14_load_succeeds", "C14_exactly_the_non_markov_preterminals", "C14_same_order", "C14_rescaled", "C14_no_markov_left">>[k]
     [] T.kind = "lower"  -> <<"C14_lower_other_types_unchanged", "C14_lower_masks_collapsed", "C14_lower_base_unchanged">>[k]
+    [] T.kind = "resumed" -> <<"C14_first_session_is_the_prefix", "C14_restored_session_emits_the_rest", "C14_restored_session_stays_in_the_flagged_language">>[k]
     [] OTHER             -> <<"C14_stream_is_reference">>[k]
 ClauseHolds(k) ==
   CASE T.kind = "load" /\ k = 1 -> T.dok => T.ok
@@ -85,6 +89,9 @@ ClauseHolds(k) ==
                                                                   /\ T.glow[j].groups[1].one
                                                                   /\ T.glow[j].groups[1].v = << [q \in 1..T.gdef[i].t[2] |-> "L"] >>
     [] T.kind = "lower" /\ k = 3 -> T.bdef = T.blow /\ Len(T.glow) = Len(T.gdef)
+    [] T.kind = "resumed" /\ k = 1 -> T.first = SubSeq(T.ref, 1, Len(T.first))
+    [] T.kind = "resumed" /\ k = 2 -> BagOfSeq(SubSeq(T.ref, Len(T.first) + 1, Len(T.ref))) \sqsubseteq BagOfSeq(T.got)
+    [] T.kind = "resumed" /\ k = 3 -> \A i \in DOMAIN T.got : \E j \in DOMAIN T.ref : T.ref[j] = T.got[i]
     [] OTHER -> T.lines = T.ref
 
 TInit == tid \in 1..NT /\ l = 1
